@@ -598,6 +598,6 @@ func drawReduce(t *rapid.T) vcase {
 
 func TestReduce(t *testing.T) {
 	grid := reduceGrid()
-	vk.Enumerate(t, "reduce-grid", len(grid), func(i int) vcase { return grid[i] }, checkReduce)
+	vk.Enumerate(t, "reduce", len(grid), func(i int) vcase { return grid[i] }, checkReduce)
 	vk.Run(t, "reduce", vk.Opts{Quick: 12000, Thorough: 150000, NoCrumb: true}, drawReduce, checkReduce)
 }
